@@ -13,7 +13,7 @@ import (
 func init() {
 	Register(&Spec{
 		ID:          "C16",
-		Explanation: "Decides structural necessary conditions of deep copy on assignment: (R1) writePtr copies a struct into the destination message exactly when forceCopy is set, the source lives in another message, or the source is a list member (the three disjuncts lead to the allocation; the no-copy edge is the failure of all three), copies a list when forceCopy is set or the source lives in another message, and copyStruct always recurses with forceCopy = true; (R2) a capability pointer copied across messages is re-homed as NewInterface(dst, dst.msg.AddCap(client.AddRef())) only under 'different message'; (R3) copyStruct copies min(len) of the data sections and zeroes the rest of the destination, copies the common pointers, nulls the destination's extra pointers and ignores the source's extra ones; (R4) a copied list gets a fresh allocation of allocSize(), a copied composite tag word, element-wise copyStruct when elements hold pointers and a bulk copy otherwise, all with maxDepth on the fresh object. (R3n) the pointer copy in copyStruct is not skipped for a null source pointer; (R3w) the size of a struct copy passes through padToWord (the struct view of a primitive-list element has a data section shorter than a word); (R3c) no function other than copyStruct and fillCanonicalStruct copies bytes into a struct's data section (no second copy routine that leaves the pointer section alone); (R6r) every increment of clientHook.refs, in particular the one AddRef takes for the re-homed capability, is applied to the result of resolveHook. Does NOT decide value equality of the copy or independence under later mutation.",
+		Explanation: "Decides structural necessary conditions of deep copy on assignment: (R1) writePtr copies a struct into the destination message exactly when forceCopy is set, the source lives in another message, or the source is a list member (the three disjuncts lead to the allocation; the no-copy edge is the failure of all three), copies a list when forceCopy is set or the source lives in another message, and copyStruct always recurses with forceCopy = true; (R2) a capability pointer copied across messages is re-homed as NewInterface(dst, dst.msg.AddCap(client.AddRef())) only under 'different message'; (R3) copyStruct copies min(len) of the data sections and zeroes the rest of the destination, copies the common pointers, nulls the destination's extra pointers and ignores the source's extra ones; (R4) a copied list gets a fresh allocation of allocSize(), a copied composite tag word, element-wise copyStruct when elements hold pointers and a bulk copy otherwise, all with maxDepth on the fresh object. (R3n) the pointer copy in copyStruct is not skipped for a null source pointer; (R3w) the size of a struct copy passes through padToWord (the struct view of a primitive-list element has a data section shorter than a word); (R3c) no function other than copyStruct and fillCanonicalStruct copies bytes into a struct's data section (no second copy routine that leaves the pointer section alone); (R6r) every increment of clientHook.refs, in particular the one AddRef takes for the re-homed capability, is applied to the result of resolveHook. (R5e) in the deep-copy functions an error that was compared with nil is also passed on, and an error that was built has a use (no partial copy reported as success). Does NOT decide value equality of the copy or independence under later mutation.",
 		Run:         runC16,
 	})
 }
@@ -41,6 +41,9 @@ func runC16(ctx *Ctx) {
 	ruleCopyZeroFill(ctx, "C16-R3z")
 	ruleStructCopySites(ctx, "C16-R3c")
 	ruleRefsCountedOnResolvedHook(ctx, "C16-R6r")
+	// a copy that fails half-way reports the failure (no partial copy passed
+	// off as complete)
+	ruleDetectedErrorNotLost(ctx, "C16-R5e", copyScope, detectedErrorExempt)
 	r := ctx.Rep
 	r.Floor("C16-R1", 2)
 	r.Floor("C16-R3", 12)
